@@ -170,6 +170,14 @@ class Summaries:
             return felem(so[1], 0 if last == "ZERO" else 1)
         if tp == "core::num::<impl u64>::MAX":
             return lit((1 << 64) - 1)
+        m_ = re.match(r"^core::num::<impl ([ui])(8|16|32|64|128)>::(MAX|MIN|BITS)$", tp)
+        if m_:
+            sg, w, what = m_.group(1), int(m_.group(2)), m_.group(3)
+            if what == "BITS":
+                return lit(w)
+            if sg == "u":
+                return lit((1 << w) - 1 if what == "MAX" else 0)
+            return lit((1 << (w - 1)) - 1 if what == "MAX" else -(1 << (w - 1)))
         if tp.endswith("Boolean::<F>::TRUE"):
             return TRUE
         if tp.endswith("Boolean::<F>::FALSE"):
@@ -239,7 +247,7 @@ class Summaries:
         if it.op == "enumerate":
             a = self.concrete_seq(I, it.args[0])
             return None if a is None else [mk("tuple", lit(i), x) for i, x in enumerate(a)]
-        if it.op not in ("struct", "map", "chain", "filter", "take", "skip", "chunks", "sym", "param"):
+        if it.op not in ("struct", "map", "chain", "filter", "take", "skip", "chunks"):
             # an opaque array value of statically known length (type-checked `[T; N]`) iterated by value / by reference
             n = I.lengths.get(it)
             if n is not None and n <= 16:
